@@ -10,6 +10,6 @@ def load_all() -> Registry:
     import contracts as pkg
 
     for m in sorted(pkgutil.iter_modules(pkg.__path__), key=lambda m: m.name):
-        if m.name.startswith("c_"):
+        if m.name.startswith(("c_", "z_")):
             importlib.import_module(f"contracts.{m.name}").register(R)
     return R
